@@ -164,6 +164,18 @@ def recursive_sequence_schema():
                 groups={}, simple={}, root=("root", "T1"), recursive=True)
 
 
+def group_content_schema():
+    """the content model of a type is a group reference itself (no enclosing sequence): T1 = group G, G = (label, line*, sub:T2?),
+    T2 = group H, H = (n, tag*)"""
+    def el(name, ty, mn=1, mx=1):
+        return dict(k="elem", name=name, type=ty, min=mn, max=mx, nillable=False)
+    groups = {"G": dict(k="seq", min=1, max=1, items=[el("label", "string"), el("line", "string", 0, None), el("sub", "T2", 0, 1)]),
+              "H": dict(k="seq", min=1, max=1, items=[el("n", "int"), el("tag", "string", 0, 3)])}
+    types = {"T1": dict(kind="complex", content=dict(k="group", ref="G", min=1, max=1), attrs=[dict(name="id", type="int", required=False)], base=None),
+             "T2": dict(kind="complex", content=dict(k="group", ref="H", min=1, max=1), attrs=[], base=None)}
+    return dict(qualified=True, attr_qualified=False, types=types, groups=groups, simple={}, root=("root", "T1"))
+
+
 def xsitype_list_schema():
     """root = (item: Base{0..unbounded}, one: Base) with BaseD and BaseE derived from Base: heterogeneous lists"""
     def leafp(name, ty, mn=1):
